@@ -208,7 +208,8 @@ func (s *metricSchemaStore) PrepareFlush() {
 	s.lock.Lock()
 	defer s.lock.Unlock()
 
-	if s.immutable == nil {
+	// an empty immutable store is never flushed(and reset), it must not block the following flushes
+	if s.immutable == nil || s.immutable.IsEmpty() {
 		s.immutable = s.mutable
 		s.mutable = imap.NewIntMap[*metric.Schema]()
 	}
